@@ -732,7 +732,9 @@ impl DnsListenerHandler {
             ) {
                 Ok(msg) => {
                     let in_reply = Self::recv_in_query(&q, &msg).await.unwrap();
-                    let in_reply_bytes = in_reply.serialise();
+                    /* A UDP reply must fit what the client can receive. */
+                    let in_reply_bytes =
+                        Self::prepare_to_send(&in_reply, msg.in_query.bufsize as usize);
                     if !Self::should_ratelimit(
                         &msg,
                         &in_reply,
@@ -819,8 +821,8 @@ impl DnsListenerHandler {
             ) {
                 Ok(msg) => {
                     let in_reply = Self::recv_in_query(&q, &msg).await.unwrap();
-                    let serialised =
-                        Self::prepare_to_send(&in_reply, msg.in_query.bufsize as usize);
+                    /* Over TCP the only limit is the 16 bit length prefix. */
+                    let serialised = Self::prepare_to_send(&in_reply, 65535);
                     let mut in_reply_bytes = Vec::with_capacity(2 + serialised.len());
                     in_reply_bytes.extend((serialised.len() as u16).to_be_bytes().iter());
                     in_reply_bytes.extend(serialised);
